@@ -53,7 +53,7 @@ VARIABLES
   lateBegin,     \* ... began its first task ...
   lateSkip,      \* a skippable pipeline began after the stop
   raisedX,       \* exception classes raised by tasks/sources so far
-  mustFail,      \* a raise that must surface (source raise, or task raise in a pipeline that was not stopped)
+  mustFail,      \* a raise that must surface (any source or task raise, also in a pipeline that was told to stop)
   afterFail,     \* new work (pipeline begin, item taken, first task begun) after such a raise
   uecAcc,        \* merge of the codes passed to update_exit_code by the embedder
   crashSeen,     \* crash message logged
@@ -95,7 +95,7 @@ Obs(e) ==
       iOK == k \in {"begin", "end"} /\ pOK /\ e.i \in Items /\ e.j \in 1..T
       accept == k = "astop" /\ mstate = "running"
       failing == \/ k = "src" /\ e.k = "raise"
-                 \/ k = "end" /\ ~e.ok /\ ~(pOK /\ Stopped(e.p))
+                 \/ k = "end" /\ ~e.ok
       newWork == \/ k = "pbegin"
                  \/ k = "src" /\ e.k = "item"
                  \/ k = "begin" /\ e.j = 1
@@ -165,8 +165,7 @@ CompleteRuns == (returned = "ret" /\ raisedX = {}) =>
                                                    /\ \A i \in 1..kk[p] : st[p][i] = 2 * T)
 \* 9. after a failure nothing else runs
 NothingAfterFailure == ~afterFail
-\* 10. the exit code is the mapped one (min-rule with codes set by the embedder); a raise swallowed in a pipeline
-\*     that had been told to stop may or may not count (lenient reading, as Pipeline-level ErrorSurfaces)
+\* 10. the exit code is the mapped one (min-rule with codes set by the embedder)
 Expected == {Merge(uecAcc, Code(x)) : x \in raisedX} \cup (IF mustFail THEN {} ELSE {uecAcc})
 ExitCodeMapped == returned = "ret" => retcode \in Expected
 \* 11. crash message iff the failure is an unexpected exception
